@@ -42,9 +42,9 @@ Proof.
 Qed.
 Lemma name_eqb_eq : forall a b, name_eqb a b = true <-> a = b.
 Proof.
-  destruct a, b; simpl; split; intros H; try discriminate; try reflexivity.
-  - apply Nat.eqb_eq in H. now subst.
-  - injection H as ->. apply Nat.eqb_refl.
+  destruct a, b; simpl; split; intros H; try discriminate; try reflexivity;
+    try (apply Nat.eqb_eq in H; subst; reflexivity);
+    try (injection H as ->; apply Nat.eqb_refl).
   - apply andb_true_iff in H. destruct H as [H1 H2]. apply Nat.eqb_eq in H1. apply tkey_eqb_eq in H2. now subst.
   - injection H as -> ->. rewrite Nat.eqb_refl. simpl. now apply tkey_eqb_eq.
 Qed.
@@ -167,7 +167,7 @@ Proof.
       { destruct (H0 ltac:(assumption) (S k) m key) as [_ Hx]; [lia|]. apply Hx. intros ->. lia. }
       assert (Hk : asg_list (NTmp m key) (fst (rw_kwparts p k (snd (rw_pos p k 0 (S k) ar)) kw)) = false).
       { destruct (H1 ltac:(assumption) (snd (rw_pos p k 0 (S k) ar)) m key) as [_ Hx]; [lia|]. apply Hx. intros ->. lia. }
-      assert (Hc : forall cn es, asg_list (NTmp m key) es = false -> asg_list (NTmp m key) (code_part cn es) = false).
+      assert (Hc : forall cn es, asg_list (NTmp m key) es = false -> asg_list (NTmp m key) (code_part p cn es) = false).
       { intros [] es He; simpl; auto. }
       assert (Happ : forall a b, asg_list (NTmp m key) a = false -> asg_list (NTmp m key) b = false -> asg_list (NTmp m key) (eapp a b) = false).
       { intros xa xb. induction xa; simpl; intros Hxa Hxb; auto. apply orb_false_iff in Hxa. destruct Hxa as [Hx1 Hx2]. rewrite Hx1. simpl. auto. }
